@@ -11,6 +11,7 @@ import (
 	"os"
 	"strings"
 	"sync"
+	"sync/atomic"
 	"time"
 
 	"github.com/alicebob/miniredis/v2"
@@ -50,7 +51,16 @@ func newStoreDriver(out string) (*storeDriver, error) {
 		return nil, err
 	}
 	d := &storeDriver{rec: rec}
+	jitter := os.Getenv("VERIF_CLOCK_JITTER") != ""
+	var tick atomic.Uint64
 	oidc.VerifSetNow(func() time.Time {
+		if jitter {
+			// concurrent histories: reading the clock takes a while now and then, which widens whatever window a store
+			// operation leaves open between reading and writing its state (no effect while the store's lock is held)
+			if n := tick.Add(1); n%3 == 0 {
+				time.Sleep(time.Duration(200+(n*7919)%1500) * time.Microsecond)
+			}
+		}
 		d.mu.Lock()
 		defer d.mu.Unlock()
 		return baseTime.Add(time.Duration(d.now) * time.Second)
